@@ -16,7 +16,7 @@ import time
 from . import facts
 
 VERIF = facts.VERIF
-WORKERS = int(os.environ.get("VERIF_SELFTEST_WORKERS", "4"))
+WORKERS = int(os.environ.get("VERIF_SELFTEST_WORKERS", "8"))
 
 
 def corpus(prop):
